@@ -49,7 +49,7 @@ func FuzzConfig(f *testing.F) {
 			var buf bytes.Buffer
 			_ = formatcfg.NewEncoder(&buf).Encode(cfg)
 			return len(cfg.Sections) > 0
-		}, "", data)
+		}, data)
 		guard(t, "FuzzConfig", "config", func() bool {
 			c := config.NewConfig()
 			if err := c.Unmarshal(data); err != nil {
@@ -58,7 +58,7 @@ func FuzzConfig(f *testing.F) {
 			_ = c.Validate()
 			_, _ = c.Marshal()
 			return true
-		}, "", data)
+		}, data)
 		guard(t, "FuzzConfig", "read", func() bool {
 			c, err := config.ReadConfig(bytes.NewReader(data))
 			if err != nil {
@@ -66,7 +66,7 @@ func FuzzConfig(f *testing.F) {
 			}
 			_ = c.Validate()
 			return true
-		}, "", data)
+		}, data)
 		guard(t, "FuzzConfig", "modules", func() bool {
 			m := config.NewModules()
 			if err := m.Unmarshal(data); err != nil {
@@ -77,7 +77,7 @@ func FuzzConfig(f *testing.F) {
 			}
 			_, _ = m.Marshal()
 			return len(m.Submodules) > 0
-		}, "", data)
+		}, data)
 	})
 }
 
@@ -161,7 +161,7 @@ func FuzzDelta(f *testing.F) {
 		guard(t, "FuzzDelta", "PatchDelta", func() bool {
 			_, err := packfile.PatchDelta(base, delta)
 			return err == nil
-		}, "", base, delta)
+		}, base, delta)
 		mkBase := func() plumbing.EncodedObject {
 			o := &plumbing.MemoryObject{}
 			o.SetType(plumbing.BlobObject)
@@ -171,7 +171,7 @@ func FuzzDelta(f *testing.F) {
 		guard(t, "FuzzDelta", "ApplyDelta", func() bool {
 			target := &plumbing.MemoryObject{}
 			return packfile.ApplyDelta(target, mkBase(), bytes.NewBuffer(append([]byte(nil), delta...))) == nil
-		}, "", base, delta)
+		}, base, delta)
 		guard(t, "FuzzDelta", "ReaderFromDelta", func() bool {
 			rc, err := packfile.ReaderFromDelta(mkBase(), bytes.NewReader(delta))
 			if err != nil {
@@ -180,11 +180,13 @@ func FuzzDelta(f *testing.F) {
 			_, err = io.Copy(io.Discard, rc)
 			_ = rc.Close()
 			return err == nil
-		}, "", base, delta)
+		}, base, delta)
 	})
 }
 
 // ---------------------------------------------------------------- mmap pack scanner
+
+var mmapLast [3][]byte // contents last written to p.pack / p.idx / p.rev by this process
 
 // FuzzMmapPack: pack + idx + rev as real files through the mmap scanner
 // (storage/filesystem/mmap): lookups by name and by offset, object reads.
@@ -196,8 +198,16 @@ func FuzzMmapPack(f *testing.F) {
 			fs := osfs.New(dir)
 			names := [3]string{"p.pack", "p.idx", "p.rev"}
 			for i, b := range [3][]byte{pack, idxData, revData} {
+				if mmapLast[i] != nil && bytes.Equal(mmapLast[i], b) {
+					continue // the engine mutates one argument at a time: file already holds these bytes
+				}
 				if err := os.WriteFile(filepath.Join(dir, names[i]), b, 0o644); err != nil {
+					mmapLast[i] = nil
 					return false
+				}
+				mmapLast[i] = append(mmapLast[i][:0:0], b...)
+				if mmapLast[i] == nil {
+					mmapLast[i] = []byte{}
 				}
 			}
 			pf, err1 := fs.Open(names[0])
@@ -239,7 +249,7 @@ func FuzzMmapPack(f *testing.F) {
 			_, _ = s.FindHash(12)
 			read(s.GetByOffset(12))
 			return okAny
-		}, "", pack, idxData, revData)
+		}, pack, idxData, revData)
 	})
 }
 
@@ -265,7 +275,7 @@ func FuzzRefs(f *testing.F) {
 			_, _ = st.Reference("refs/heads/master")
 			_, _ = st.Reference("refs/tags/v1.0")
 			return n > 1
-		}, "", data)
+		}, data)
 		guard(t, "FuzzRefs", "loose", func() bool {
 			fs := memfs.New()
 			_ = writeFile(fs, "HEAD", data)
@@ -278,7 +288,7 @@ func FuzzRefs(f *testing.F) {
 				_ = it.ForEach(func(r *plumbing.Reference) error { return nil })
 			}
 			return err1 == nil || err2 == nil
-		}, "", data)
+		}, data)
 		guard(t, "FuzzRefs", "shallow", func() bool {
 			fs := memfs.New()
 			_ = writeFile(fs, "shallow", data)
@@ -286,7 +296,7 @@ func FuzzRefs(f *testing.F) {
 			defer st.Close()
 			hs, err := st.Shallow()
 			return err == nil && len(hs) > 0
-		}, "", data)
+		}, data)
 		guard(t, "FuzzRefs", "refname", func() bool {
 			n := plumbing.ReferenceName(data)
 			_ = n.Short()
@@ -295,7 +305,7 @@ func FuzzRefs(f *testing.F) {
 			_, _ = plumbing.FromHex(string(data))
 			_ = plumbing.IsHash(string(data))
 			return err == nil
-		}, "", data)
+		}, data)
 	})
 }
 
@@ -313,4 +323,16 @@ func FuzzURL(f *testing.F) {
 			return true
 		}, s)
 	})
+}
+
+// TestMeta prints the selector table of FuzzPackp so that cmd/c53 writes its
+// seeds against the order compiled into this binary.
+func TestMeta(t *testing.T) {
+	if os.Getenv("VERIF_FUZZ_META") == "" {
+		t.Skip("meta only on request")
+	}
+	for i, m := range packpMessages {
+		fmt.Printf("VERIF-META packp %d %s\n", i, m.name)
+	}
+	fmt.Printf("VERIF-META bound base=%d slope=%d maxinput=%d hang=%v\n", allocBase, allocSlope, maxInput, hangAfter)
 }
